@@ -55,6 +55,8 @@ pub struct Base {
     pub p_t: usize,    // token-2022 pool (fee mint + plain 2022 mint)
     pub p_ad: usize,   // adaptive fee pool
     pub p_b: usize,    // (m1,m2,64) in config B
+    pub p_22: usize,   // two extension-less Token-2022 mints: unchecked transfers would work on them
+    pub pos_22: usize,
     pub owner: usize,
     pub other: usize,
     pub delegate: Pubkey,
@@ -151,6 +153,10 @@ pub fn build_base(seed: u64) -> Base {
     fund(&mut w, pos_a3, 4_000_000_000);
     let pos_a2 = open(&mut w, p_a2, owner, -1280, 1280, false);
     fund(&mut w, pos_a2, 4_000_000_000);
+    let (t3, t4) = (w.add_t22_mint(6, None), w.add_t22_mint(6, None));
+    let p_22 = w.add_pool(cfg_a, t3, t4, 64, 3000, one, true).ok().expect("p_22");
+    let pos_22 = open(&mut w, p_22, owner, -1280, 1280, false);
+    fund(&mut w, pos_22, 4_000_000_000);
     let pos_t = open(&mut w, p_t, owner, -1280, 1280, true);
     fund(&mut w, pos_t, 4_000_000_000);
     let pos_ad = open(&mut w, p_ad, owner, -1280, 1280, false);
@@ -299,7 +305,7 @@ pub fn build_base(seed: u64) -> Base {
     assert!(o.ok(), "catalogue set-up: token badge {:?} {:?}", o.out.err, o.out.logs);
     // some trading so that fees, protocol fees and rewards are owed
     w.advance_clock(1000);
-    for p in [p_a, p_a2, p_a3, p_t, p_ad, p_b] {
+    for p in [p_a, p_a2, p_a3, p_t, p_ad, p_b, p_22] {
         for (amt, dir) in [(50_000_000u64, true), (80_000_000, false), (30_000_000, true)] {
             let ix = w.swap_ix(p, trader, amt, 0, 0, true, dir, true);
             let o = w.exec(ix);
@@ -307,12 +313,12 @@ pub fn build_base(seed: u64) -> Base {
         }
     }
     w.advance_clock(1000);
-    for i in [pos_full, te_full, te_locked, te_lockable, other_pos, pos_a3, pos_a2, pos_t, pos_ad, pos_b, bundled_open] {
+    for i in [pos_full, te_full, te_locked, te_lockable, other_pos, pos_a3, pos_a2, pos_t, pos_ad, pos_b, pos_22, bundled_open] {
         let o = w.exec(w.update_fees_ix(i));
         assert!(o.ok(), "catalogue set-up: update fees {i} {:?}", o.out.err);
     }
     Base {
-        w, cfg_a, cfg_b, p_a, p_a2, p_a3, p_t, p_ad, p_b, owner, other, delegate, pos_full, pos_empty, pos_msig, pos_same, te_full, te_empty, te_locked, te_lockable, other_pos, pos_a3, pos_a2, pos_t, pos_ad, pos_b,
+        w, cfg_a, cfg_b, p_a, p_a2, p_a3, p_t, p_ad, p_b, p_22, pos_22, owner, other, delegate, pos_full, pos_empty, pos_msig, pos_same, te_full, te_empty, te_locked, te_lockable, other_pos, pos_a3, pos_a2, pos_t, pos_ad, pos_b,
         bundle_mint, bundle_token, bundled_open, empty_bundle_mint, empty_bundle_token, aft_a, aft_delegate, aft_perm, aft_perm_delegate, aft_b, badge_mint,
     }
 }
